@@ -45,7 +45,7 @@ def _chunk(sig, hdr_rest, entries_bytes, chunk_size, density):
     qr_size = free + len(qr)
     return sig + struct.pack("<I", qr_size) + hdr_rest + body + bytes(free) + qr
 
-def build_dir(entries, chunk_size, density, with_index=True, max_per_chunk=None):
+def build_dir(entries, chunk_size, density, with_index=True, max_per_chunk=None, chain_rng=None):
     """entries: list of (name, section, offset, length), will be sorted.  Returns (chunks bytes list, index_root, depth, first_pmgl, last_pmgl)"""
     ents = sorted(entries, key=lambda e: sort_key(e[0]))
     enc = [encint(len(n)) + n + encint(s) + encint(o) + encint(l) for (n, s, o, l) in ents]
@@ -60,15 +60,21 @@ def build_dir(entries, chunk_size, density, with_index=True, max_per_chunk=None)
         else: cur = trial
     groups.append(cur)
     npmgl = len(groups)
-    chunks = []
+    chunks = [None] * npmgl
     firstnames = []; idx = 0
+    # the listing chunks form a linked list that starts at chunk 0; the links need not follow the physical order of the chunks
+    place = list(range(npmgl))
+    if chain_rng is not None and npmgl > 2:
+        rest = place[1:]
+        while rest == place[1:]: chain_rng.shuffle(rest)
+        place = [0] + rest
     for gi, g in enumerate(groups):
-        prev = gi - 1 if gi > 0 else 0xFFFFFFFF; nxt = gi + 1 if gi + 1 < npmgl else 0xFFFFFFFF
-        chunks.append(_chunk(b"PMGL", struct.pack("<III", 0, prev, nxt), g, chunk_size, density))
+        prev = place[gi - 1] if gi > 0 else 0xFFFFFFFF; nxt = place[gi + 1] if gi + 1 < npmgl else 0xFFFFFFFF
+        chunks[place[gi]] = _chunk(b"PMGL", struct.pack("<III", 0, prev, nxt), g, chunk_size, density)
         firstnames.append(ents[idx][0]); idx += len(g)
     index_root = 0xFFFFFFFF; depth = 1
     if with_index and npmgl > 1:
-        level = list(zip(firstnames, range(npmgl)))
+        level = list(zip(firstnames, place))
         while True:
             ienc = [encint(len(n)) + n + encint(c) for (n, c) in level]
             igroups = []; cur = []
@@ -91,7 +97,7 @@ def build_dir(entries, chunk_size, density, with_index=True, max_per_chunk=None)
     return chunks, index_root, depth, 0, npmgl - 1
 
 def build(files0, files1=(), rng=None, version=3, chunk_size=4096, density=2, with_index=True, wbits=16, reset_frames=2,
-          rt_entry_size=8, with_rtable=True, with_spaninfo=True, control_version=2, lang=0x409, max_per_chunk=None, dirs=(), pad_to_reset=True, content_last=True, lzx_match_p=0.5, rt_slack=0, gaps=(0, 0, 0), rt_keep=None, extra_entries=(), overlong_last=0, lzx_btypes=None):
+          rt_entry_size=8, with_rtable=True, with_spaninfo=True, control_version=2, lang=0x409, max_per_chunk=None, dirs=(), pad_to_reset=True, content_last=True, lzx_match_p=0.5, rt_slack=0, gaps=(0, 0, 0), rt_keep=None, extra_entries=(), overlong_last=0, lzx_btypes=None, chain_rng=None):
     """files0: [(name, data)] stored uncompressed; files1: [(name, length)] stored in the LZX section (content drawn by the generator).
     returns (chm bytes, expected {name: (section, offset, length, data)})"""
     sec0 = b""; entries = []; expect = {}
@@ -131,7 +137,7 @@ def build(files0, files1=(), rng=None, version=3, chunk_size=4096, density=2, wi
         else: sysf.insert(1, (CONTENT, stream))
         for name, data in sysf:
             entries.append((name, 0, len(sec0), len(data))); expect[name] = (0, len(sec0), len(data), data); sec0 += data
-    chunks, index_root, depth, first, last = build_dir(entries, chunk_size, density, with_index, max_per_chunk)
+    chunks, index_root, depth, first, last = build_dir(entries, chunk_size, density, with_index, max_per_chunk, chain_rng)
     hs1 = struct.pack("<4sIIIIIIIIIiII", b"ITSP", 1, 0x54, 0x0A, chunk_size, density, depth, index_root, first, last, -1, len(chunks), lang) + GUIDS[:16] + struct.pack("<Iiii", 0x54, -1, -1, -1)
     dirbytes = hs1 + b"".join(chunks)
     hdrlen = 0x38 + (0x28 if version >= 3 else 0x20)
